@@ -1,7 +1,7 @@
 /-
 `CompleteBipartiteGraph(L, R)` (C16): the value `BipG.complete l r` satisfies the bipartite
 invariant, and the closed-form views of the class (`CBipG`) are the views of that value.
-Updates never change it.  Core Lean only.
+Updates never change it; illegal insertions are refused.  Core Lean only.
 -/
 import Lemmas.GraphNx
 namespace Cnfgen
@@ -98,8 +98,42 @@ theorem run_state (G : CBipG) (ops : List GOp) : G.run ops = G := by
     show ((G.step o).1).run os = G
     rw [step_state]; exact ih
 
-/-- `add_edge` is `pass`: it never raises, whatever the arguments -/
-theorem step_addEdge (G : CBipG) (u v : Int) : G.step (.addEdge u v) = (G, .ok) := rfl
+theorem legal_iff (G : CBipG) (u v : Int) : G.legal u v = true ↔ BipG.Valid G.l G.r u v := by
+  simp [legal, BipG.Valid]
+
+/-- a legal insertion is a no-op (every legal pair is an edge already) -/
+theorem step_addEdge_valid (G : CBipG) {u v : Int} (h : BipG.Valid G.l G.r u v) :
+    G.step (.addEdge u v) = (G, .ok) := by
+  simp only [step, (legal_iff G u v).2 h, if_true]
+
+/-- an illegal insertion is refused with `ValueError`, no side effect -/
+theorem step_addEdge_invalid (G : CBipG) {u v : Int} (h : ¬ BipG.Valid G.l G.r u v) :
+    G.step (.addEdge u v) = (G, .raised .valueError) := by
+  have : G.legal u v = false := by
+    cases hh : G.legal u v with
+    | false => rfl
+    | true => exact absurd ((legal_iff G u v).1 hh) h
+  simp only [step, this]
+  rfl
+
+/-- `add_edges_from`: `ValueError` iff some pair is illegal; nothing changes either way -/
+theorem step_addEdgesFrom (G : CBipG) (es : List (Int × Int)) :
+    (G.step (.addEdgesFrom es)).1 = G ∧
+    ((G.step (.addEdgesFrom es)).2 = .ok ↔ ∀ e ∈ es, BipG.Valid G.l G.r e.1 e.2) ∧
+    ((G.step (.addEdgesFrom es)).2 = .ok ∨ (G.step (.addEdgesFrom es)).2 = .raised .valueError) := by
+  refine ⟨rfl, ?_, ?_⟩
+  · simp only [step]
+    by_cases hall : es.all (fun e => G.legal e.1 e.2) = true
+    · rw [if_pos hall]
+      rw [List.all_eq_true] at hall
+      exact ⟨fun _ e he => (legal_iff G e.1 e.2).1 (hall e he), fun _ => rfl⟩
+    · rw [if_neg hall]
+      constructor
+      · intro hh; cases hh
+      · intro hv; exact absurd (List.all_eq_true.2 (fun e he => (legal_iff G e.1 e.2).2 (hv e he))) hall
+  · simp only [step]; split
+    · exact Or.inl rfl
+    · exact Or.inr rfl
 
 theorem edges_eq (G : CBipG) : G.edges = G.toBipG.edges := by
   have h := BipG.inv_complete G.l G.r
